@@ -186,7 +186,8 @@ def idx_setup_loops():
 
 IDX_SETUP = FSpec("IndexMarket.setup", props=("C17",), param_types={"settings": ("dict", ("str",), ("dyn",))}, modifies=lambda st, a: ["*"],
                   pre=lambda st, a: idx_setup_pre(st, a),
-                  post=lambda st0, st1, a, res: [("C17 components are pairwise distinct markets that declare outstanding shares", comp_inv(st1, a["self"]))])
+                  post=lambda st0, st1, a, res: [("C17 components are pairwise distinct markets that declare outstanding shares", comp_inv(st1, a["self"])),
+                                                 ("C07 the settings handed to the index market are not written", z3.And(st1.dict_dom(a["settings"]) == st0.dict_dom(a["settings"]), st1.dict_val(a["settings"]) == st0.dict_val(a["settings"])))])
 
 
 def idx_setup_pre(st, a):
